@@ -28,6 +28,9 @@ type gbCase struct {
 	Events   []gbEvent `json:"events"`
 	Horizon  int       `json:"horizon_ms"`
 	Kind     string    `json:"kind"`
+	// SlowDoorMs: the accepting side's muxer.AcceptKnock is entered this much later (hook point): the order "open the
+	// door, then acknowledge the knock" must not depend on AcceptKnock being quick
+	SlowDoorMs int `json:"slow_door_ms,omitempty"`
 }
 
 func init() {
@@ -38,9 +41,9 @@ func init() {
 // ids < 1000: the host accepts and the plugin dials; ids >= 1000: the plugin accepts and the host dials
 func genGrpcBroker(o opts, mux bool) []gbCase {
 	r := hk.Rng(o.seed + 83)
-	n := 10
+	n := 12
 	if o.tier == "thorough" {
-		n = 80
+		n = 82
 	}
 	var cs []gbCase
 	pair := func(c *gbCase, t int, id uint32, acceptFirst bool, gap int) int {
@@ -63,6 +66,9 @@ func genGrpcBroker(o opts, mux bool) []gbCase {
 		// documented usage: establishments strictly one after another
 		for k := 0; k < n; k++ {
 			c := gbCase{Mux: true, AutoMTLS: k%3 == 2, Kind: "sequential"}
+			if k%2 == 0 {
+				c.SlowDoorMs = 150
+			}
 			t := 0
 			for j := 0; j < 5; j++ {
 				id := uint32(10 + j)
@@ -103,6 +109,9 @@ func genGrpcBroker(o opts, mux bool) []gbCase {
 		{{0, "host", "accept", 10}, {0, "host", "accept", 11}, {0, "host", "accept", 12}, {600, "plugin", "dial", 12}, {700, "plugin", "dial", 10}, {800, "plugin", "dial", 11}},
 		{{0, "plugin", "accept", 1010}, {0, "plugin", "accept", 1011}, {0, "plugin", "accept", 1012}, {500, "host", "dial", 1011}, {900, "host", "dial", 1010}, {1300, "host", "dial", 1012}},
 		{{0, "host", "accept", 10}, {6500, "plugin", "dial", 10}}, // the info is retained for about 5 s only
+		// a dial that waits for an id nobody has accepted yet must not hold up the dial of another id whose info is about to expire
+		{{0, "plugin", "accept", 1010}, {4000, "host", "dial", 1011}, {4300, "host", "dial", 1010}, {5700, "plugin", "accept", 1011}},
+		{{0, "host", "accept", 10}, {4000, "plugin", "dial", 11}, {4300, "plugin", "dial", 10}, {5700, "host", "accept", 11}},
 	}
 	for i, evs := range directed {
 		c := gbCase{AutoMTLS: i%3 == 1, Events: evs, Kind: "directed"}
@@ -175,7 +184,11 @@ func runOneGrpcBroker(c gbCase) []struct{ in, obs sx.V } {
 	}
 	var mu sync.Mutex
 	set := func(i int, r result) { mu.Lock(); res[i] = r; mu.Unlock() }
-	cl, caller, err := startVP(vpOpts{Proto: "grpc", Mux: c.Mux, AutoMTLS: c.AutoMTLS})
+	vo := vpOpts{Proto: "grpc", Mux: c.Mux, AutoMTLS: c.AutoMTLS}
+	if c.SlowDoorMs > 0 {
+		vo.Plugin = map[string]interface{}{"delay_point": "smux.acceptknock", "delay_ms": c.SlowDoorMs}
+	}
+	cl, caller, err := startVP(vo)
 	mainOK := 1
 	if err == nil {
 		gb := caller.GRPC()
@@ -229,7 +242,7 @@ func runOneGrpcBroker(c gbCase) []struct{ in, obs sx.V } {
 		if rc, err := cl.Client(); err != nil || rc.Ping() != nil {
 			mainOK = 0
 		}
-		cl.Kill()
+		boundedKill(cl)
 	} else {
 		mainOK = 0
 	}
@@ -260,6 +273,14 @@ func runOneGrpcBroker(c gbCase) []struct{ in, obs sx.V } {
 }
 
 func runGrpcBroker(o opts, mux bool) error {
+	if mux {
+		// host-accepting direction: the host's client muxer enters AcceptKnock late (all cases of this process)
+		plugin.VerifSetHook(func(name string, id uint32) {
+			if name == "cmux.acceptknock" {
+				time.Sleep(150 * time.Millisecond)
+			}
+		})
+	}
 	fam := "grpcbroker"
 	prop := 7
 	if mux {
